@@ -1,5 +1,5 @@
 """C15 - event-stream framing (DESIGN.md section 3, C15)."""
-from .. import flow, guards, paths, writes
+from .. import flow, guards, paths, writes, inline
 from ..facts import callee_def, short
 from ..report import AnchorMissing
 
@@ -22,11 +22,14 @@ def fields_of(sl, adt):
 
 
 def rule_r1_r2(chk, db):
-    b = find_serialize(db)
+    b = inline.inlined(db, find_serialize(db))       # with its stages (length computation, prelude, header loop) inlined
     buf = None
     for l in range(len(b.locals)):
-        if b.local_name(l) == "buf" and "Vec<u8>" in b.locals[l]:
-            buf = l
+        if buf is None and "Vec<u8>" in b.locals[l] and not b.locals[l].startswith("&") and b.local_name(l) is not None and l < len(b.original.locals if hasattr(b, "original") else b.locals):
+            # the writer's own (owned) byte buffer, whatever it is called
+            w_ = [1 for _, t in b.calls() if short(callee_def(t)).startswith("put") and t["args"] and writes.targets_buffer(b, t["args"][0], l)]
+            if w_:
+                buf = l
     if buf is None:
         # the local converted into the returned Bytes
         for w in flow.return_writes(b):
@@ -108,31 +111,64 @@ def rule_r1_r2(chk, db):
                 if df["kind"] == "assign" and df["rv"]["k"] == "cast" and "IntToInt" in df["rv"].get("ck", "") and df["rv"].get("ty") in ("u8", "u16", "u32"):
                     casts.append(b.loc(df["bi"]))
         chk.verdict(not casts, "R2", "no-as-truncation#%d" % e["bi"], casts[0] if casts else b.loc(e["bi"]), "a length is narrowed with `as` (wraps silently) at %s" % casts, nontrivial=False)
-    # R2 length accounting: per-header constant and fixed part
-    clo = [c for c in b.children]
-    consts_in_fold = []
-    for c in clo:
-        for bi, t in c.calls():
-            if short(callee_def(t)) == "checked_add":
-                v_ = flow.const_int_eval(c, t["args"][1])
-                if v_ is not None:
-                    consts_in_fold.append(v_)
-    consts_outer = []
+    # R2 length accounting: per-header constant and fixed part.  "Per header" = a checked addition inside a closure (fold) or inside a loop of
+    # the writer; "fixed" = one outside any loop.
+    clo = db.nested(b, include_self=False)
+    for hn in getattr(b, "inlined_from", []):
+        hb = db.body(hn)
+        if hb is not None:
+            clo += db.nested(hb, include_self=False)
+    loops = writes.loop_blocks(b)
+    consts_in_fold, consts_outer = [], []
+    lens = set()
+    def iterating(x):
+        """closure handed to an iterator adaptor (fold / try_fold / map / for_each ...), as opposed to e.g. Option::and_then"""
+        par = db.body(x.parent)
+        if par is None:
+            return True
+        for _, _, st in par.stmts():
+            if st["rv"]["k"] == "agg" and st["rv"].get("def") == x.name:
+                cl = st["dst"]["l"]
+                for _, t2 in par.calls():
+                    if any(flow.op_place(a) is not None and flow.op_place(a)["l"] == cl for a in t2["args"]):
+                        return callee_def(t2).startswith("core::iter::") or short(callee_def(t2)) in ("try_fold", "fold", "for_each", "sum")
+        return True
+
+    def per_item(x, depth=0):
+        """the closure runs once per header: handed to an iterator adaptor, or created inside a loop (or inside such a closure)"""
+        if iterating(x):
+            return True
+        par = db.body(x.parent) if x.parent != b.name else b
+        if par is None or depth > 3:
+            return False
+        site = [bi2 for bi2, _, st in par.stmts() if st["rv"]["k"] == "agg" and st["rv"].get("def") == x.name]
+        if site and site[0] in writes.loop_blocks(par):
+            return True
+        return per_item(par, depth + 1) if par.kind == "Closure" and par is not b else False
+    iter_ctx = {x.name: per_item(x) for x in clo}
     for x in [b] + clo:
         for bi, t in x.calls():
+            per_header = (x is not b and iter_ctx.get(x.name, True)) or (x is b and bi in loops)
             if short(callee_def(t)) == "checked_add":
-                v_ = flow.const_int_eval(x, t["args"][1])
-                if v_ is not None and v_ not in (4,):
-                    consts_outer.append(v_)
+                for a_ in t["args"]:
+                    v_ = flow.const_int_eval(x, a_)
+                    if v_ is not None:
+                        (consts_in_fold if per_header else consts_outer).append(v_)
+            if short(callee_def(t)) == "len" and per_header:
+                lens |= {f for a, f in flow.backward(x, t["args"][0], at=bi).fields if a == "Header"}
+        for bi, si, st in x.stmts():
+            rv = st["rv"]
+            if rv["k"] == "bin" and rv["op"].startswith("Add"):
+                for o in rv["ops"]:
+                    v_ = flow.const_int_eval(x, o) if isinstance(o, dict) and "c" in o else None
+                    if v_ is not None:
+                        ((consts_in_fold if (x is not b and iter_ctx.get(x.name, True)) or (x is b and bi in loops) else consts_outer)).append(v_)
     # bytes appended per header by the trace: 1 (name len) + 1 (type) + 2 (value len) = 4; fixed: 4+4+4 prelude + 4 trailing crc = 16
     per_header = BE_PUTS["put_u8"] * 2 + BE_PUTS["put_u16"]
     fixed = BE_PUTS["put_u32"] * 4
     chk.verdict(per_header in consts_in_fold, "R2", "per-header-constant", b.loc(), "declared per-header overhead %s, bytes actually written per header (besides name and value): %d" % (consts_in_fold, per_header))
     chk.verdict(fixed in consts_outer, "R2", "fixed-part-constant", b.loc(), "declared fixed part %s, bytes actually written outside headers/payload: %d" % (consts_outer, fixed))
-    for c in clo:
-        lens = {f for bi, t in c.calls() if short(callee_def(t)) == "len" for a, f in flow.backward(c, t["args"][0], at=bi).fields if a == "Header"}
-        if lens:
-            chk.verdict(lens == {"name", "value"}, "R2", "header-length-terms", c.loc(), "the headers length sums %s (expected name and value lengths)" % sorted(lens))
+    chk.verdict(lens == {"name", "value"}, "R2", "header-length-terms", b.loc(), "the headers length sums %s (expected name and value lengths)" % sorted(lens))
 
 
 SPEC = {
